@@ -43,6 +43,8 @@ def nontrivial(st):
     return 'merge' in ops
 import stream_fams
 fams += stream_fams.c03(c)
+import trace_fams
+fams += trace_fams.c03(c)
 fams += [
     stream_fams._fam(name='stream-merge-deep-blocks', series=[1, 2], times=[1, 2, 3], maxrows=1, maxtotal=3, maxops=7, sims=200, simops=7,
                      script=W3, ballast=300, ballast_mode='deep', select=fan_in, per_class=8 * nb, procs=1),
